@@ -15,6 +15,7 @@ def register(reg):
     register_brightest(reg)
     register_bounds(reg)
     register_finite(reg)
+    register_peak_table(reg)
     img = ('arr', 2, 'real', 'nonempty')
     box = '(0, data.shape[0]), (0, data.shape[1])'
     inside = ('j >= border_width[0] and j < data.shape[0] - border_width[0] and '
@@ -211,3 +212,27 @@ def register_finite(reg):
                  ("'sky', 'peak', 'flux')", "'sky', 'peak')")],
     ))
 
+
+
+def register_peak_table(reg):
+    """find_peaks "x_peak / y_peak / peak_value": the reported coordinates are the (column, row)
+    of exactly the candidate pixels and peak_value is the data at that pixel."""
+    box = '(0, data.shape[0]), (0, data.shape[1])'
+    reg.add(Contract(
+        target=F, props=['C14', 'C03'], kind='function', tag='peak-coordinates-and-values',
+        block=('y_peaks', 'peak_values', 0),
+        params={'data': ('arr', 2, 'real', 'nonempty'), 'peak_goodmask': ('arr', 2, 'bool', 'nonempty')},
+        requires=['peak_goodmask.shape == data.shape'],
+        ensures=[
+            ('one-entry-per-candidate-pixel',
+             f'forall(lambda j, i: iff(sel(peak_values, j, i), peak_goodmask[j, i]) and '
+             f'iff(sel(x_peaks, j, i), peak_goodmask[j, i]) and '
+             f'iff(sel(y_peaks, j, i), peak_goodmask[j, i]), {box})'),
+            ('x-is-the-column-y-is-the-row',
+             f'forall(lambda j, i: val(x_peaks, j, i) == i and val(y_peaks, j, i) == j, {box})'),
+            ('peak-value-is-the-data-at-the-pixel',
+             f'forall(lambda j, i: val(peak_values, j, i) == data[j, i], {box})'),
+        ],
+        mutants=[('y_peaks, x_peaks = peak_goodmask.nonzero()', 'x_peaks, y_peaks = peak_goodmask.nonzero()'),
+                 ('peak_values = data[y_peaks, x_peaks]', 'peak_values = data[x_peaks, y_peaks]')],
+    ))
